@@ -220,6 +220,8 @@ def generate(ch, profile):
     """-> (config, ops).  All draws come from streams `cfg` and `wl`."""
     cfg = {"profile": profile}
     cfg["origin"] = ch.choice("cfg", ["random", "small", "wrap", "wrap"])
+    # stream sequence numbers of a long-lived stream: just below the 16-bit wrap in a share of runs
+    cfg["sseq_origin"] = (65535 - ch.randint("cfg", 0, 40, 2)) if ch.chance("cfg", 0.35) else 0
     cfg["start_skew"] = ch.choice("cfg", [0.0, 0.0, 0.01, 0.3, 2.0])
     cfg["sched"] = ch.chance("cfg", 0.7, True)
     cfg["stall_rate"] = ch.choice("cfg", [0.0, 0.0, 0.002, 0.01])
@@ -371,11 +373,10 @@ class World:
         }
         self.dtls["A"].link_out = self.links["A"]
         self.dtls["B"].link_out = self.links["B"]
-        for side in "AB":
-            self.links[side].tap = self._make_tap(side)
-
         # sequence-number origins (the random32 seam)
         self.origins = self._origins(cfg)
+        for side in "AB":
+            self.links[side].tap = self._make_tap(side)
         self.sctp = {}
         for side in "AB":
             vals = deque(self.origins[side])
@@ -387,6 +388,26 @@ class World:
             sctpmod.random32 = r32
             self.sctp[side] = self.ctx[side].run(sctpmod.RTCSctpTransport, self.dtls[side], 5000)
             sctpmod.random32 = real
+        self._restore = []
+        sseq0 = cfg.get("sseq_origin", 0)
+        if sseq0:
+            # stream sequence numbers start where a long-lived stream would be
+            # (the state after sseq0 ordered messages), on both ends alike
+            class SeqDict(dict):
+                def get(self, key, default=None, _o=sseq0):
+                    return dict.get(self, key, _o if default == 0 else default)
+
+            base_cls = sctpmod.InboundStream
+
+            class SeededInboundStream(base_cls):
+                def __init__(self, _o=sseq0):
+                    super().__init__()
+                    self.sequence_number = _o
+
+            sctpmod.InboundStream = SeededInboundStream
+            self._restore.append(lambda: setattr(sctpmod, "InboundStream", base_cls))
+            for side in "AB":
+                self.sctp[side]._outbound_stream_seq = SeqDict()
         self._instrument()
 
     # -- configuration helpers ------------------------------------------
@@ -440,10 +461,29 @@ class World:
                                 "detail": repr(exc)})
 
     def _make_tap(self, side):
+        peer = "B" if side == "A" else "A"
+        norm = self.cfg.get("normalise")
+        o_self, o_peer = self.origins[side][1], self.origins[peer][1]
+        sseq0 = self.cfg.get("sseq_origin", 0)
+
         def tap(event, data, info):
             if event == "send":
-                self.log.add("dg", side, info["act"], wire_summary(data))
+                w = wire_summary(data)
+                if norm:
+                    # sequence fields relative to their origins (C17 differential runs)
+                    if w[0] == "DATA":
+                        sseq = w[4] if (w[1] & 4) else (w[4] - sseq0) & 0xFFFF   # unordered chunks carry no sequence
+                        w = (w[0], w[1], (w[2] - o_self) & 0xFFFFFFFF, w[3], sseq) + w[5:]
+                    elif w[0] == "SACK":
+                        w = (w[0], (w[1] - o_peer) & 0xFFFFFFFF) + w[2:]
+                    elif w[0] == "FORWARD_TSN":
+                        w = (w[0], (w[1] - o_self) & 0xFFFFFFFF) + w[2:]
+                self.log.add("dg", side, info["act"], w)
         return tap
+
+    def cleanup(self):
+        for fn in getattr(self, "_restore", ()):
+            fn()
 
     def on_wire(self, side, data):
         """C08 wire monitor: every packet an endpoint emits parses back to equal
@@ -1204,6 +1244,24 @@ def build(spec):
     return ch, cfg, ops
 
 
+def execute(spec, ch, cfg, ops, keep_log=False):
+    """Run one world to completion; -> (world, harness error or None)."""
+    world = World(spec, ch, cfg, ops, ALL_PROPS)
+    world.log.keep_all = keep_log
+    harness = None
+    try:
+        try:
+            world.loop.run_until_complete(world.main())
+        except (SimDeadlock, SimBudgetExceeded) as exc:
+            harness = "%s: %s" % (type(exc).__name__, exc)
+    finally:
+        try:
+            world.cleanup()
+        finally:
+            teardown_loop(world.loop)
+    return world, harness
+
+
 def run(spec):
     from ..choices import derive_seed
     spec = dict(spec)
@@ -1211,17 +1269,8 @@ def run(spec):
     ch, cfg, ops = build(spec)
     if spec.get("cfg_override"):
         cfg = dict(cfg, **spec["cfg_override"])
-    world = World(spec, ch, cfg, ops, ALL_PROPS)
-    verdict = "ok"
-    harness = None
-    try:
-        try:
-            world.loop.run_until_complete(world.main())
-        except (SimDeadlock, SimBudgetExceeded) as exc:
-            harness = "%s: %s" % (type(exc).__name__, exc)
-        return finish(world, spec, ch, cfg, ops, harness)
-    finally:
-        teardown_loop(world.loop)
+    world, harness = execute(spec, ch, cfg, ops)
+    return finish(world, spec, ch, cfg, ops, harness)
 
 
 def finish(world, spec, ch, cfg, ops, harness):
